@@ -5,7 +5,10 @@
 //! per value) come from TLC with each step; this file only maps tokens to values and names to calls.
 use amverif::rng::Rng;
 use amverif::world;
-use hexane::{Column, DeltaColumn, PrefixColumn, RawColumn};
+use hexane::{Column, DeltaColumn, LoadOpts, PrefixColumn, RawColumn};
+
+/// segment budgets for load_with: every residue mod 4 around the slab-splitting thresholds
+const LOAD_BUDGETS: [usize; 12] = [2, 3, 4, 5, 6, 7, 8, 9, 10, 11, 14, 17];
 use serde_json::{json, Value as J};
 use std::panic::{catch_unwind, AssertUnwindSafe};
 
@@ -154,6 +157,24 @@ macro_rules! plain_column_replay {
                         return;
                     }
                 }
+                // ... and with explicit segment budgets (the loader splits the bytes into slabs accordingly);
+                // the reloaded column saves to bytes that load to the same values
+                for n in LOAD_BUDGETS {
+                    match <$col>::load_with(&bytes, LoadOpts::new().with_max_segments(n)) {
+                        Ok(c) => {
+                            let g2: Vec<<K as Kind>::V> = c.to_vec().into_iter().map(|x| getf(x)).collect();
+                            let again = <$col>::load(&c.save()).map(|d| d.to_vec().into_iter().map(|x| getf(x)).collect::<Vec<<K as Kind>::V>>());
+                            if g2 != want || c.len() != want.len() || again.ok().as_ref() != Some(&want) {
+                                bad.push(format!("{} seg{} step {}: load_with(max_segments {}) gives {:?} want {:?}", K::NAME, maxseg, si, n, g2, want));
+                                return;
+                            }
+                        }
+                        Err(e) => {
+                            bad.push(format!("{} seg{} step {}: load_with(max_segments {}) fails {:?}", K::NAME, maxseg, si, n, e));
+                            return;
+                        }
+                    }
+                }
             }
         }
     };
@@ -190,6 +211,15 @@ fn replay_prefix(beh: &J, maxseg: usize, bad: &mut Vec<String>) {
         if col.to_vec() != want {
             bad.push(format!("prefix seg{} step {} {}: contents {:?} want {:?}", maxseg, si, op, col.to_vec(), want));
             return;
+        }
+        for n in LOAD_BUDGETS {
+            match PrefixColumn::<u64>::load_with(&col.save(), LoadOpts::new().with_max_segments(n)) {
+                Ok(c) if c.to_vec() == want => {}
+                other => {
+                    bad.push(format!("prefix seg{} step {}: load_with(max_segments {}) {:?}", maxseg, si, n, other.map(|c| c.to_vec())));
+                    return;
+                }
+            }
         }
         let pre: Vec<u64> = step["exp"]["pre"].as_array().unwrap().iter().map(|x| x.as_u64().unwrap()).collect();
         for (k, p) in pre.iter().enumerate() {
@@ -323,6 +353,15 @@ fn replay_delta_with(beh: &J, maxseg: usize, bad: &mut Vec<String>, dv: fn(&str)
             other => {
                 bad.push(format!("delta seg{} step {}: load(save) {:?}", maxseg, si, other.map(|c| c.to_vec())));
                 return;
+            }
+        }
+        for n in LOAD_BUDGETS {
+            match DeltaColumn::<i64>::load_with(&col.save(), LoadOpts::new().with_max_segments(n)) {
+                Ok(c) if c.to_vec() == want => {}
+                other => {
+                    bad.push(format!("delta seg{} step {}: load_with(max_segments {}) {:?}", maxseg, si, n, other.map(|c| c.to_vec())));
+                    return;
+                }
             }
         }
     }
